@@ -111,9 +111,11 @@ def build(tier="quick", seed=0):
                     nomark = not any(pth.endswith("mp_success.log") for k, pth in fs.events)
                     ground(b, f"{worker.key}::ensures:failed_case_unmarked{tag}", worker.key, "a failed case leaves no success marker (it is re-run on restart)", nomark, detail=str(fs.events))
     journal(b, parent, seed, tier)
+    journal_atomicity(b, parent)
     restart_scan(b, parent)
     reload_indices(b, parent, seed, tier)
     b.replayer(f"{worker.key}::*", _replay_worker)
+    b.replayer(f"{FMP}::multiprocessing_run#journal_creation*", _replay_journal_kill)
     b.replayer(f"{FMP}::multiprocessing_run#*", _replay_restart)
     b.assume("NOT DECIDED: kill points inside and between bookkeeping steps, process schedules, pool sizes 4..16, subsets of failing cases across a real restart — no contract on a single call can state them and no verifier for OS effects is available")
     b.assume("ghost file system: open(path,'w'), os.makedirs and np.savez create the named path; the event order of one worker call is the program order")
@@ -187,6 +189,146 @@ def journal(b, parent, seed, tier):
                detail=str(bad[:2]), refuted_model=None if not bad else {"must_include": bad[0][0]}, bounded=True)
     b.bounded.append(dict(name="journal round trip (extracted writer / reader statements executed concretely)", bound=f"{len(cases)} generated inputs: list / tuple x 0..3 floats",
                           evaluations=len(cases), passed=n_ok, counted_as_proved=False))
+
+
+def journal_atomicity(b, parent):
+    """kill points inside the creation of the study journal (ghost file system with contents): the block `if not study_restart:` is extracted verbatim and
+    executed with ghost `open` / `os`; after EVERY file-system event (a kill there leaves exactly the state built so far, with partially written content
+    flushed or not) the restart protocol must still work: if the state contains a journal under the name the restart detection looks for, the real reader
+    statements parse from it exactly the inputs of the study.  (A journal that exists but is incomplete makes every later run of the study fail or run a
+    smaller grid.)"""
+    from collections import namedtuple
+    import datetime
+    MI = namedtuple("MultiprocessingInput", ("name", "nice_name", "start", "end", "scale", "must_include", "n"))
+    node = parent.node
+    key = f"{FMP}::multiprocessing_run#journal_creation"
+    blocks = [n for n in ast.walk(node) if isinstance(n, ast.If) and ast.unparse(n.test) == "not study_restart" and any("mp_file.write" in ast.unparse(s_) for s_ in n.body)]
+    reader = [n for n in ast.walk(node) if isinstance(n, ast.For) and ast.unparse(n.iter) == "lines"]
+    if len(blocks) != 1 or len(reader) != 1:
+        b.subset_exits.append(f"{key}: journal creation block / reader loop not found ({len(blocks)}, {len(reader)})")
+        return
+    blk = blocks[0]
+    b.functions[key] = dict(function=key, line=blk.lineno, note="journal creation block (lines %d-%d) executed concretely on a ghost file system; reader loop (lines %d-%d) run on every intermediate state" % (blk.lineno, blk.body[-1].end_lineno, reader[0].lineno, reader[0].end_lineno),
+                            dropped=["everything of multiprocessing_run outside the block and the reader loop"])
+    wsrc = "def _create(study_restart, dir_to_use, mp_log_path, input_data, version, study_name, start_time, os, open):\n" + "\n".join("    " + l for l in "\n".join(ast.unparse(s_) for s_ in blk.body).split("\n"))
+    rsrc = "def _read(lines, MultiprocessingInput):\n    input_data_to_use = list()\n    start_input_found = False\n" + \
+           "\n".join("    " + l for l in ast.unparse(reader[0]).split("\n")) + "\n    return input_data_to_use"
+    ns = {}
+    try:
+        exec(compile(wsrc, "journal_creation", "exec"), ns)
+        exec(compile(rsrc, "reader", "exec"), ns)
+    except SyntaxError as e:
+        b.subset_exits.append(f"{key}: extracted block does not compile on its own ({e})")
+        return
+    events = []          # (kind, path, payload)
+
+    class GhostFile:
+        def __init__(self, path, mode):
+            self.path, self.mode = path, mode
+            events.append(("open:" + mode, path, None))
+
+        def write(self, text):
+            events.append(("write", self.path, text))
+
+        def __enter__(self):
+            return self
+
+        def __exit__(self, *a_):
+            events.append(("close", self.path, None))
+            return False
+
+        def close(self):
+            events.append(("close", self.path, None))
+
+    class GhostPath:
+        @staticmethod
+        def join(*a_):
+            return "/".join(a_)
+
+        @staticmethod
+        def isdir(p_):
+            return any(k_ == "makedirs" and q_ == p_ for k_, q_, _ in events)
+
+        @staticmethod
+        def isfile(p_):
+            return p_ in state_after(len(events))
+
+        exists = isfile
+
+    class GhostOS:
+        path = GhostPath
+
+        @staticmethod
+        def makedirs(p_, exist_ok=False):
+            events.append(("makedirs", p_, None))
+
+        @staticmethod
+        def replace(src, dst):
+            events.append(("replace", src, dst))
+
+        rename = replace
+
+        @staticmethod
+        def remove(p_):
+            events.append(("remove", p_, None))
+
+        @staticmethod
+        def fsync(*a_):
+            return None
+
+    def state_after(k):
+        files = {}
+        for kind, path, payload in events[:k]:
+            if kind.startswith("open:w"):
+                files[path] = ""
+            elif kind.startswith("open:a"):
+                files.setdefault(path, "")
+            elif kind == "write":
+                files[path] = files.get(path, "") + payload
+            elif kind == "replace":
+                if path in files:
+                    files[payload] = files.pop(path)
+            elif kind == "remove":
+                files.pop(path, None)
+        return files
+    inputs = [MI("viscosity", "Viscosity [Pa s]", 14.0, 22.0, "log", (18.5,), 5), MI("temperature", "Temperature [K]", 1000.0, 2000.0, "linear", [], 3)]
+    try:
+        ns["_create"](False, "DIR", "DIR/tpy_mp.log", inputs, "0.0.0", "study", datetime.datetime(2026, 1, 1), GhostOS, lambda p_, m_="r": GhostFile(p_, m_))
+    except Exception as e:
+        b.subset_exits.append(f"{key}: extracted block raised on the ghost file system ({type(e).__name__}: {e})")
+        return
+
+    def parses(text):
+        lines = text.splitlines(keepends=True)
+        try:
+            back = ns["_read"](lines, MI)
+        except Exception as e:
+            return False, f"{type(e).__name__}: {e}"
+        same = len(back) == len(inputs) and all(x_.name == y_.name and x_.start == y_.start and x_.end == y_.end and x_.scale == y_.scale and list(x_.must_include) == list(y_.must_include) and x_.n == y_.n
+                                                for x_, y_ in zip(back, inputs))
+        return same, f"{len(back)} of {len(inputs)} inputs read back"
+    bad = None
+    # kill after event k (k = 0: nothing happened yet).  A partially written line is a state as well: the write is cut in the middle.
+    states = []
+    for k in range(len(events) + 1):
+        states.append((f"after event #{k} {events[k - 1][0] + ' ' + str(events[k - 1][1]) if k else '(start)'}", state_after(k)))
+        if k < len(events) and events[k][0] == "write" and len(events[k][2]) > 1:
+            st_ = dict(state_after(k))
+            st_[events[k][1]] = st_.get(events[k][1], "") + events[k][2][:len(events[k][2]) // 2]
+            states.append((f"in the middle of event #{k + 1} write {events[k][1]}", st_))
+    for label, st_ in states:
+        if "DIR/tpy_mp.log" in st_:
+            ok, why = parses(st_["DIR/tpy_mp.log"])
+            if not ok and bad is None:
+                bad = (label, why, st_["DIR/tpy_mp.log"][:120])
+    final = state_after(len(events))
+    ok_final = "DIR/tpy_mp.log" in final and parses(final["DIR/tpy_mp.log"])[0]
+    ground(b, f"{key}::ensures:journal_written", key, "ensures: after the block the journal exists under the name the restart detection looks for and parses back to the inputs", ok_final,
+           detail=str(sorted(final))[:200])
+    ground(b, f"{key}::invariant:journal_complete_or_absent", key,
+           "at every kill point of the journal creation (between any two file-system events, and in the middle of a write): exists(tpy_mp.log) ==> the restart reader parses exactly the study's inputs from it",
+           bad is None, detail="" if bad is None else f"kill {bad[0]}: {bad[1]}; journal so far: {bad[2]!r}",
+           refuted_model=None if bad is None else dict(kill_point=bad[0], restart_reads=bad[1], journal_so_far=bad[2]), kill_points=len(states))
 
 
 def restart_scan(b, parent):
@@ -404,6 +546,69 @@ finally:
     shutil.rmtree(base, ignore_errors=True)
 result = dict(failures=fails[:8], n=len(fails))
 '''
+
+
+_KILL_JOURNAL = r'''
+import os, shutil, sys, numpy as np, warnings, tempfile
+warnings.filterwarnings('ignore')
+import TidalPy.utilities.multiprocessing.multiprocessing as mpmod
+from TidalPy.utilities.multiprocessing import multiprocessing_run, MultiprocessingInput
+def study(run_dir, a, b_):
+    return dict(v=np.asarray(a * 10 + b_))
+inputs = (MultiprocessingInput('a', 'A', 0., 2., 'linear', (), 3), MultiprocessingInput('b', 'B', 0., 1., 'linear', (0.5,), 2))
+base = tempfile.mkdtemp(prefix="tpv_c18_kill_")
+class Kill(BaseException): pass
+def run(d):
+    return multiprocessing_run(d, "s", study, inputs, max_procs=2, allow_low_procs=True, verbose=False, avoid_crashes=True, force_restart=False, perform_memory_check=False)
+out = []
+try:
+    ref = run(os.path.join(base, "ref"))
+    for k in range(0, 8):
+        d = os.path.join(base, f"kill{k}")
+        count = {"n": 0}
+        real_open = open
+        def patched(path, mode="r", *a, **kw):
+            f = real_open(path, mode, *a, **kw)
+            if "w" in mode and "tpy_mp.log" in str(path):
+                real_write = f.write
+                class W:
+                    def __enter__(s): return s
+                    def __exit__(s, *e): f.close(); return False
+                    def write(s, t):
+                        if count["n"] >= k:
+                            f.flush(); raise Kill()
+                        count["n"] += 1
+                        return real_write(t)
+                    def __getattr__(s, a_): return getattr(f, a_)
+                return W()
+            return f
+        mpmod.open = patched
+        try:
+            run(d); first = "completed"
+        except Kill:
+            first = "killed"
+        finally:
+            del mpmod.open
+        try:
+            r = run(d); second = "completed %d" % len(r); ok = len(r) == len(ref)
+        except BaseException as e:
+            second = "RAISED %s: %s" % (type(e).__name__, str(e)[:60]); ok = False
+        out.append([k, first, second, ok])
+finally:
+    shutil.rmtree(base, ignore_errors=True)
+result = out
+'''
+
+
+def _replay_journal_kill(ob, res):
+    from tpv import native
+    out = native.run(dict(code=_KILL_JOURNAL), timeout=1200)
+    rec = dict(replayed=True, native=out, what="simulated kill (exception out of the k-th write to the journal, k = 0..7, file flushed as an OS would leave it), then the same call again on the same directory: must complete with the 9 results of the uninterrupted study")
+    try:
+        rec["confirmed"] = any(not row[3] for row in out["result"])
+    except Exception:
+        rec["confirmed"] = "exception" in out
+    return rec
 
 
 def _replay_restart(ob, res):
